@@ -521,3 +521,93 @@ func ruleBufCap(c *Ctx, pkgRel string) *RuleResult {
 	r.inst("%d exported functions of package %s scanned for constant reslices of slice parameters", n, pkgRel)
 	return r
 }
+
+// ruleArgIndex: every index into a slice the function was handed (a slice parameter, or the slice a
+// pointer receiver points to) is proved in range under the guards that dominate it: an empty set is
+// a set, and a[0] or a[len(a)-1] without a length test panics on it.
+func ruleArgIndex(c *Ctx, pkgRel string) *RuleResult {
+	r := &RuleResult{Rule: "ARGINDEX", Doc: "every index into an argument slice (or the receiver's slice) is proved within its length: the empty set is a legal argument", MinInst: 1}
+	nf := 0
+	for _, fn := range c.Funcs {
+		p := fnPkg(fn)
+		if p == nil || p.Pkg.Path() != c.Mod+"/"+pkgRel || fn.Synthetic != "" || fn.Blocks == nil || fn.Parent() != nil {
+			continue
+		}
+		if o := fn.Object(); o == nil || !o.Exported() {
+			continue
+		}
+		nf++
+		isArg := func(v ssa.Value) bool {
+			for depth := 0; depth < 4; depth++ {
+				switch x := v.(type) {
+				case *ssa.Parameter:
+					_, ok := x.Type().Underlying().(*types.Slice)
+					return ok
+				case *ssa.ChangeType:
+					v = x.X
+					continue
+				case *ssa.UnOp:
+					if x.Op == token.MUL {
+						if prm, ok := x.X.(*ssa.Parameter); ok {
+							if pt, ok := prm.Type().Underlying().(*types.Pointer); ok {
+								_, isSl := pt.Elem().Underlying().(*types.Slice)
+								return isSl
+							}
+						}
+					}
+				}
+				return false
+			}
+			return false
+		}
+		var P *Prover
+		for _, b := range fn.Blocks {
+			for _, in := range b.Instrs {
+				ia, ok := in.(*ssa.IndexAddr)
+				if !ok || !isArg(ia.X) {
+					continue
+				}
+				if P == nil {
+					P = NewProver(c, fn)
+					searchResults(P, fn)
+				}
+				src := c.srcAt(ia.Pos())
+				if src == "" {
+					src = valName(ia)
+				}
+				idx, ln := P.poly(ia.Index), P.lenOf(ia.X)
+				r.inst("%s: %s", c.short(fn), src)
+				ok2 := P.Prove(idx.scale(-1), b) && P.Prove(idx.add(ln, -1).add(constP(1), 1), b)
+				r.oblig(ok2)
+				if !ok2 {
+					r.find(c.short(fn)+":"+src+" may be out of range", c.instrPos(ia), "%s: %s: the index %s is not proved to lie within the argument's length %s: the function panics for the arguments (the empty set, say) for which it does not", c.short(fn), src, P.showTerm(idx), P.showTerm(ln))
+				}
+			}
+		}
+	}
+	r.inst("%d exported functions of package %s scanned for indices into their arguments", nf, pkgRel)
+	return r
+}
+
+// searchResults: the documented range of the standard binary searches, as facts: sort.SearchInts(a, x)
+// and sort.Search(n, f) return a position in [0, len(a)] resp. [0, n].
+func searchResults(P *Prover, fn *ssa.Function) {
+	for _, b := range fn.Blocks {
+		for _, in := range b.Instrs {
+			call, ok := in.(*ssa.Call)
+			if !ok {
+				continue
+			}
+			f := call.Call.StaticCallee()
+			if f == nil || len(call.Call.Args) < 1 {
+				continue
+			}
+			switch f.String() {
+			case "sort.SearchInts", "sort.SearchStrings", "sort.SearchFloat64s":
+				P.global = append(P.global, P.poly(call).scale(-1), P.poly(call).add(P.lenOf(call.Call.Args[0]), -1))
+			case "sort.Search":
+				P.global = append(P.global, P.poly(call).scale(-1), P.poly(call).add(P.poly(call.Call.Args[0]), -1))
+			}
+		}
+	}
+}
